@@ -631,7 +631,7 @@ def run(ctx):
         f = tables_fail(ctx, N)
         if f:
             ctx.report({'op': 'tables', 'N': N}, 'failure', f)
-    for i in range(200 if ctx.tier == 'quick' else 2500):
+    for i in range(200 if ctx.tier == 'quick' else 1000):
         case = poly_sep_case(rng, ctx.tier) if i % 10 == 9 else poly_case(rng, ctx.tier)
         ctx.evaluations += 1
         ctx.count('poly-separable-scales' if case.get('sep') else 'poly', 'N=%d' % case['N'], 'd=%d' % case['d'])
